@@ -137,7 +137,11 @@ func (r *rng) genCborItem(depth int, unsupported bool) []byte {
 		// unsupported features
 		switch r.n(7) {
 		case 0:
-			return append(cbHead(0xc0, uint64(r.n(300)), r), r.genCborItem(depth+1, false)...) // tag
+			tag := uint64(r.n(300))
+			if r.chance(1, 3) {
+				tag = []uint64{55799, 55798, 0, 1, 2, 3, 4, 24, 32, 21, 22, 23, 1 << 32}[r.n(13)] // self-describe, date/time, bignum, ...
+			}
+			return append(cbHead(0xc0, tag, r), r.genCborItem(depth+1, false)...) // tag
 		case 1:
 			return []byte{0xf9, byte(r.u64()), byte(r.u64())} // half float
 		case 2:
